@@ -374,11 +374,28 @@ Definition classified_sites : list (string * string * string * N * string) :=
     ("primitives.rs", "to_u32", "panic", 1%N, "as validate_entries: no Inline unit after resolve") ].
 Close Scope string_scope.
 
-Definition site_eqb (a : string * string * string * N) (b : string * string * string * N * string) : bool :=
-  let '(f1, g1, k1, n1) := a in let '(f2, g2, k2, n2, _) := b in
-  String.eqb f1 f2 && String.eqb g1 g2 && String.eqb k1 k2 && N.eqb n1 n2.
+(* a site list agrees with the classification when, per (file, function, kind), there are AT MOST as many sites as were
+   classified (code that lost a site -- a destructuring instead of two index expressions -- needs no new argument), where the
+   sites of a private helper without a classification of its own count as sites of its only caller (code moved into a helper
+   of the same file is still that code) *)
+Definition classified_here (f fn k : string) : bool :=
+  existsb (fun c => let '(f2, g2, k2, _, _) := c in String.eqb f f2 && String.eqb fn g2 && String.eqb k k2) classified_sites.
+Definition resolve_fn (f fn k : string) : string :=
+  if classified_here f fn k then fn
+  else match find (fun h => let '(f2, h2, _) := h in String.eqb f f2 && String.eqb fn h2) BuildGuards.build_private_helpers with
+       | Some (_, _, g) => g
+       | None => fn
+       end.
+Definition sites_total (f g k : string) : N :=
+  fold_right (fun s acc => let '(f2, fn2, k2, n) := s in
+                if String.eqb f f2 && String.eqb k k2 && String.eqb (resolve_fn f2 fn2 k2) g then (n + acc)%N else acc)
+             0%N BuildGuards.build_panic_sites.
 Definition panic_sites_ok : bool :=
-  forallb (fun s => existsb (site_eqb s) classified_sites) BuildGuards.build_panic_sites.
+  forallb (fun s => let '(f, fn, k, _) := s in
+             let g := resolve_fn f fn k in
+             existsb (fun c => let '(f2, g2, k2, n2, _) := c in
+                        String.eqb f f2 && String.eqb g g2 && String.eqb k k2 && (sites_total f g k <=? n2)%N) classified_sites)
+          BuildGuards.build_panic_sites.
 
 (* ---------------- entry points of the correspondence shards ---------------- *)
 
